@@ -52,7 +52,7 @@ def hash_tables():
 
 def base_consts(codes):
     return {"SDs": {2, 3}, "T": 6, "LOmag": 47, "HI": 61, "NodeCfgs": {31}, "MaxGroups": 2,
-            "CreateTimes": {0, 1, 2, 3, 4, 5}, "TruncTimes": {0, 1, 2, 3, 4, 5, 6}, "MaxDel": 1, "CreateExtremes": False, "MaxBatch": 2,
+            "CreateTimes": {0, 1, 2, 3, 4, 5}, "TruncTimes": {0, 1, 2, 3, 4, 5, 6}, "MaxDel": 1, "CreateExtremes": False, "MaxBatch": 2, "MaxBatchCut": 2,
             "Series": {s["id"] for s in SERIES}, "HashCodes": set(codes), "Cuts": {2}, "Dev": []}
 
 
@@ -66,17 +66,19 @@ def run(ctx):
 
     if not ctx.replay:
         # 1. the model of MapShards satisfies the property on every reachable metadata state, for every batch
-        c = dict(base_consts(codes), MaxDel=0, MaxBatch=3, TruncTimes={1, 2, 4}, Cuts={1, 3})
-        ctx.write_cfg(sd, "MC3.cfg", "Spec", c, INV)
+        c = dict(base_consts(codes), MaxDel=0, MaxBatch=3, MaxBatchCut=pick(ctx, 2, 3), TruncTimes={1, 2, 4}, Cuts=pick(ctx, {2}, {1, 3}))
+        ctx.write_cfg(sd, "MC3.cfg", "Spec", c, INV + pick(ctx, [], ["C08_LazyEqualsPre"]))
         ctx.tlc_check(sd, "Routing", "MC3.cfg", workers=8, timeout=900, coverage=not quick)
-        c = dict(base_consts(codes), NodeCfgs={11, 21, 31, 32, 42}, MaxBatch=pick(ctx, 1, 2), CreateTimes={0, 2, 3, 5}, CreateExtremes=True,
-                 TruncTimes={1, 3, 4}, Cuts={2})
+        # shards per group 1, 2, 3 (nodes x replication), extreme timestamps in the history
+        c = dict(base_consts(codes), NodeCfgs=pick(ctx, {11, 21, 32}, {11, 21, 31, 32, 42}), MaxBatch=pick(ctx, 1, 2), MaxBatchCut=1,
+                 MaxDel=pick(ctx, 0, 1), CreateTimes=pick(ctx, {1, 4}, {0, 2, 3, 5}), CreateExtremes=True,
+                 TruncTimes=pick(ctx, {2, 5}, {1, 3, 4}), Cuts={2})
         ctx.write_cfg(sd, "MCN.cfg", "Spec", c, INV)
         ctx.tlc_check(sd, "Routing", "MCN.cfg", workers=8, timeout=900)
         if not quick:
             c = dict(base_consts(codes), MaxGroups=3, MaxDel=1, MaxBatch=2, Cuts={1, 4})
             ctx.write_cfg(sd, "MC2.cfg", "Spec", c, INV)
-            ctx.tlc_check(sd, "Routing", "MC2.cfg", workers=8, timeout=1500)
+            ctx.tlc_check(sd, "Routing", "MC2.cfg", workers=8, timeout=2400)
         # negative controls: with the pinned code's deviations switched on the same formulas must fail
         for dev, inv in (('"truncIgnored"', "C08_DesignatedGroup"), ('"lateCutoff"', "C08_DroppedIffTooOld")):
             c = dict(base_consts(codes), MaxDel=0, MaxBatch=2, Dev=[dev])
@@ -86,25 +88,32 @@ def run(ctx):
                 raise Infra("negative control: %s does not fail with Dev={%s}: the formula does not discriminate" % (inv, dev))
 
     # 2. scenarios -> real meta.Data + real PointsWriter.MapShards
-    inp = {"T": 6, "LOmag": 47, "HI": 61, "SDs": [2, 3], "series": SERIES, "hm": hm, "workers": 6,
-           "maxbatch": 3, "maxbatchcut": pick(ctx, 2, 3)}
+    inp = {"T": 6, "LOmag": 47, "HI": 61, "SDs": [2, 3], "series": SERIES, "hm": hm, "workers": 6}
     if ctx.replay:
         rp = json.load(open(ctx.replay))["replay"]
         inp.update(scenarios=[rp["scenario"]], only=rp["only"])
     else:
         scen = []
+
+        def add(behs, mb, mbc):
+            for b in behs:
+                b["mb"], b["mbc"] = mb, mbc
+            scen.extend(behs)
+        # every metadata state reachable with <= 2 (thorough: 3) groups, one shortest history each;
+        # every batch of <= 3 boundary instants in every order; every cut-off with batches of <= 2 (3)
         g = dict(base_consts(codes), MaxGroups=pick(ctx, 2, 3), GenLen=0)
         ctx.write_cfg(sd, "G1.cfg", "GSpec", g, extra="VIEW GView\nINVARIANT Emit")
-        scen += ctx.tlc_generate(sd, "RoutingGen", "G1.cfg", exhaustive=True, timeout=1500)
+        add(ctx.tlc_generate(sd, "RoutingGen", "G1.cfg", exhaustive=True, timeout=2400), 3, pick(ctx, 2, 3))
         # other node counts / replication factors (shards per group 1, 2, 3), extreme timestamps in the history
-        g = dict(base_consts(codes), NodeCfgs={11, 21, 32, 42}, CreateTimes={1, 4}, CreateExtremes=True, TruncTimes={0, 2, 5}, GenLen=0)
+        g = dict(base_consts(codes), NodeCfgs=pick(ctx, {11, 21, 32}, {11, 21, 32, 42}), CreateTimes={1, 4}, CreateExtremes=True,
+                 TruncTimes=pick(ctx, {2, 5}, {0, 2, 5}), GenLen=0)
         ctx.write_cfg(sd, "G2.cfg", "GSpec", g, extra="VIEW GView\nINVARIANT Emit")
-        scen += ctx.tlc_generate(sd, "RoutingGen", "G2.cfg", exhaustive=True, timeout=900)
+        add(ctx.tlc_generate(sd, "RoutingGen", "G2.cfg", exhaustive=True, timeout=900), pick(ctx, 2, 3), pick(ctx, 1, 2))
         # longer random histories (up to 5 groups, several truncations and deletions)
         g = dict(base_consts(codes), NodeCfgs={31, 21}, MaxGroups=5, MaxDel=2, GenLen=9)
         ctx.write_cfg(sd, "G3.cfg", "GSpec", g, extra="INVARIANT Emit")
-        n3 = pick(ctx, 150, 3000)
-        scen += ctx.tlc_generate(sd, "RoutingGen", "G3.cfg", num=n3, depth=10)[:n3]
+        n3 = pick(ctx, 150, 2500)
+        add(ctx.tlc_generate(sd, "RoutingGen", "G3.cfg", num=n3, depth=10)[:n3], 3, 2)
         ctx.cov["exhaustive"] = True
         inp["scenarios"] = scen
 
